@@ -116,9 +116,15 @@ var drivenKinds = []string{
 	"paloma.MsgAddLightNodeClientLicense",
 	"consensus.MsgAddMessagesSignatures", "consensus.MsgAddMessageGasEstimates", "consensus.MsgAddEvidence",
 	"consensus.MsgSetPublicAccessData", "consensus.MsgSetErrorData", "valset.MsgAddExternalChainInfoForValidator",
+	"wasm.scheduler.execute_job", "wasm.scheduler.execute_job", "wasm.scheduler.legacy_execute_job", "wasm.scheduler.create_job",
+	"wasm.tokenfactory.mint_tokens", "wasm.tokenfactory.change_admin", "wasm.tokenfactory.burn_tokens", "wasm.tokenfactory.create_denom",
+	"wasm.skyway.send_tx", "wasm.skyway.cancel_tx", "wasm.skyway.set_erc20_to_denom",
 }
 
 func (e *env) build(t *testing.T, s scen) (*built, error) {
+	if isWasmKind(s.Kind) {
+		return e.buildWasm(t, s)
+	}
 	md := e.meta(s)
 	nm := func(f string) int {
 		if v, ok := s.Named[f]; ok {
@@ -536,9 +542,21 @@ func loadTable(t *testing.T) {
 				Class string `json:"class"`
 			} `json:"fields"`
 		} `json:"messages"`
+		Wasm map[string]struct {
+			Fields map[string]struct {
+				Class string `json:"class"`
+			} `json:"fields"`
+		} `json:"wasm_bindings"`
 	}
 	if err := json.Unmarshal(bz, &tb); err != nil {
 		t.Fatal(err)
+	}
+	for m, r := range tb.Wasm {
+		for f, c := range r.Fields {
+			if c.Class == "beneficiary" {
+				beneficiary[m+":"+f] = true
+			}
+		}
 	}
 	for m, r := range tb.Messages {
 		for f, c := range r.Fields {
@@ -574,7 +592,7 @@ func (e *env) deliver(b *built, s scen) obs {
 	}
 	var o obs
 	var vbErr error
-	if vb, ok := b.msg.(sdk.HasValidateBasic); ok {
+	if vb, ok := b.msg.(sdk.HasValidateBasic); ok && b.msg != nil {
 		func() {
 			defer func() {
 				if r := recover(); r != nil {
@@ -585,7 +603,11 @@ func (e *env) deliver(b *built, s scen) obs {
 		}()
 	}
 	var aerr string
-	o.Ante, aerr = e.ante(b.msg)
+	if b.msg == nil {
+		o.Ante = true // a wasm dispatch: no ante chain; wasmd authenticated the contract address
+	} else {
+		o.Ante, aerr = e.ante(b.msg)
+	}
 	if vbErr != nil {
 		o.Err = "validate-basic: " + vbErr.Error()
 		return o
@@ -634,8 +656,25 @@ func (e *env) deliver(b *built, s scen) obs {
 			}
 		}
 	}
+	exempt := map[int]bool{}
+	if e.three {
+		// relay duty of a NEWLY queued message is assigned by the chain's relayer selection (a function
+		// of existing state, nothing in the message names the validator): not the sender's doing
+		known := map[uint64]bool{}
+		for _, q := range e.queued {
+			known[q.ID] = true
+		}
+		for _, qm := range e.queuedMessages(e.ctx) {
+			if !known[qm.GetId()] {
+				if a := e.assigneeOf(e.ctx, qm.GetId()); a >= 0 {
+					exempt[a] = true
+				}
+				e.queued = append(e.queued, queuedMsg{ID: qm.GetId(), Assignee: e.assigneeOf(e.ctx, qm.GetId())})
+			}
+		}
+	}
 	for i := 0; i < nActors; i++ {
-		if before[i] != after[i] {
+		if before[i] != after[i] && !(exempt[i] && i != s.Creator) {
 			o.Touched = append(o.Touched, i)
 		}
 	}
@@ -668,7 +707,10 @@ func oracleR(run *emit.Run, s scen, b *built, o obs, replay any) {
 	if !o.Ok {
 		return
 	}
-	sk := signerKind(b.msg)
+	sk := 0
+	if b.msg != nil {
+		sk = signerKind(b.msg)
+	}
 	for _, p := range o.Touched {
 		if p == s.Creator && authorisedCreator {
 			continue
@@ -885,11 +927,26 @@ func genScen(r *rand.Rand, kind string, hostile bool) scen {
 		s.Named["ClientAddress"] = anyActor(r)
 	case "skyway.MsgConfirmBatch":
 		named("Orchestrator", 40)
-		switch r.Intn(6) {
+		switch r.Intn(8) {
 		case 0:
 			s.SigBy = -1
 		case 1:
 			s.SigBy = r.Intn(nVals)
+		case 2, 3:
+			// the sender's OWN registered key and valid signature (a bonded validator signing for
+			// itself, possibly through its relayer key) while another validator is named as orchestrator
+			if !isVal(s.Creator) {
+				s.Creator = r.Intn(nVals)
+				if len(s.Grants) == 1 && len(s.Signers) == 1 && s.Signers[0] >= idxPig0 {
+					s.Grants[0][0] = s.Creator
+				} else {
+					s.Signers, s.Grants = []int{s.Creator}, nil
+				}
+			}
+			s.SigBy = s.Creator
+			if s.Named["Orchestrator"] == s.Creator || !isVal(s.Named["Orchestrator"]) {
+				s.Named["Orchestrator"] = (s.Creator + 1 + r.Intn(nVals-1)) % nVals
+			}
 		default:
 			s.SigBy = s.Named["Orchestrator"]
 		}
@@ -943,6 +1000,41 @@ func genScen(r *rand.Rand, kind string, hostile bool) scen {
 			}
 			s.Pre = []scen{pre}
 		}
+	case "wasm.scheduler.execute_job", "wasm.scheduler.legacy_execute_job", "wasm.scheduler.create_job",
+		"wasm.tokenfactory.mint_tokens", "wasm.tokenfactory.change_admin", "wasm.tokenfactory.burn_tokens", "wasm.tokenfactory.create_denom",
+		"wasm.skyway.send_tx", "wasm.skyway.cancel_tx", "wasm.skyway.set_erc20_to_denom":
+		// the principal is the dispatching contract: no signer set, no grants; the body names others
+		s.Creator = pick(r, 0, 1, 2, idxUser0)
+		s.Signers, s.Grants, s.Named = []int{s.Creator}, nil, map[string]int{}
+		other := pick(r, 0, 1, 2, idxUser0)
+		switch kind {
+		case "wasm.scheduler.execute_job", "wasm.scheduler.legacy_execute_job":
+			s.Of, s.ID = other, pick2(r, "vault-rebalance", "vault-rebalance", "vault-rebalance", nearMiss(r, "vault-rebalance"))
+			if kind == "wasm.scheduler.execute_job" && r.Intn(3) != 0 {
+				s.Named["Sender"] = pick(r, s.Creator, anyActor(r), anyActor(r))
+			}
+		case "wasm.scheduler.create_job":
+			s.Of, s.ID = other, nearMiss(r, "vault-rebalance")
+		case "wasm.tokenfactory.create_denom":
+			s.Of, s.ID = other, nearMiss(r, "gold")
+		case "wasm.tokenfactory.mint_tokens":
+			s.Of, s.ID = pick(r, s.Creator, s.Creator, other), "gold"
+			s.Named["MintToAddress"] = pick(r, 0, 1, 2, idxUser0, s.Creator)
+		case "wasm.tokenfactory.change_admin":
+			s.Of, s.ID = pick(r, s.Creator, s.Creator, other), "gold"
+			s.Named["NewAdminAddress"] = pick(r, 0, 1, 2, idxUser0)
+		case "wasm.tokenfactory.burn_tokens":
+			s.Of, s.ID = pick(r, s.Creator, s.Creator, other), "gold"
+			if r.Intn(2) == 0 {
+				s.Named["BurnFromAddress"] = pick(r, s.Creator, other, anyActor(r))
+			}
+		case "wasm.skyway.cancel_tx":
+			s.TxID = uint64(pick(r, 1, 1, 2))
+		case "wasm.skyway.set_erc20_to_denom":
+			s.Of, s.ID = s.Creator, "junk"
+			s.Erc = ercVariant(r, r.Intn(len(ercs)))
+		}
+		hostile = false
 	case "valset.MsgAddExternalChainInfoForValidator":
 		if !isVal(s.Creator) && r.Intn(4) != 0 {
 			s.Creator = r.Intn(nVals)
@@ -1054,6 +1146,16 @@ func nearMiss(r *rand.Rand, base string) string {
 func runOne(t *testing.T, run *emit.Run, s scen, fromCorpus bool) {
 	var e *env
 	switch {
+	case isWasmKind(s.Kind):
+		switch wasmEnv(s.Kind) {
+		case 3:
+			e = setup3(t)
+		case 2:
+			e = setup2(t)
+		default:
+			e = setup(t)
+		}
+		e.wasmPre(t, s)
 	case isEnv3Kind(s.Kind):
 		e = setup3(t)
 	case isEnv2Kind(s.Kind):
